@@ -1,0 +1,18 @@
+//go:build verif
+
+package encoding
+
+// Contracts for saving encoded messages (property C27). Comment-only file:
+// compiled only under the "verif" build tag, contains no code. The "//@"
+// lines are read by /verif/govc. nfsop/fsop/fsopok/fsopname2/fsopnum are the
+// file-operation log of the trusted os contracts (govc/externs/os_file.spec).
+
+// MarshalAndSave touches the file system only through WriteFileAtomic, with
+// the given path, the marshalled bytes and mode 0600; a nil result means the
+// last five logged operations are the successful create / write (all bytes) /
+// close / chmod / rename-onto-path sequence of WriteFileAtomic. (The marshal
+// callback is unknown code: nothing is claimed about operations it performs.)
+//@ func MarshalAndSave
+//@   at call WriteFileAtomic assert[only] arg0 == path && arg1 == data && arg2 == 384
+//@   ensures[saved] result == nil ==> fsop[nfsop - 5] == 1 && fsop[nfsop - 4] == 2 && fsop[nfsop - 3] == 3 && fsop[nfsop - 2] == 4 && fsop[nfsop - 1] == 5 && fsopname2[nfsop - 1] == path
+//@   ensures[saved] result == nil ==> fsopok[nfsop - 5] && fsopok[nfsop - 4] && fsopok[nfsop - 3] && fsopok[nfsop - 2] && fsopok[nfsop - 1]
